@@ -6,7 +6,7 @@ from .. import project, projdrive
 from ..common import pmap
 
 BACKENDS = ["slurm", "slurm_noacct", "sge", "lsf"]
-WFS = ("chain3", "diamond", "forksink", "twoparts", "join")
+WFS = ("chain3", "diamond", "forksink", "twoparts", "join", "shortcut")
 
 
 def run(ctx, *, mine, designs, gens, relevant, rule, extra_traces=None, must_hit=()):
